@@ -29,6 +29,10 @@ RULE = ('(1) hints of grammar G x objects (conforming, violating, unrelated) who
         'spy or one-shot')
 
 BASES = (list, tuple, dict, set, frozenset, collections.deque)
+# what a check may run on its subject: the read-only protocol calls the property names (hooks, __len__, iteration and
+# indexing of re-iterable collections, __eq__, repr()) and the accessors validators placed by the user reach
+# (attribute reads).  Truth-testing, copying, searching (__bool__, copy, count, index, get, __format__) are not among them.
+ALLOWED_EVENTS = spies.READONLY_EVENTS - {'copy', 'count', 'index', 'get', 'format', 'sizeof'}    # ('bool' = asked by a user predicate; the checking code's own truth tests are logged as 'truth-test')
 
 
 def spyify(x, depth=0):
@@ -273,9 +277,11 @@ def main():
             W.count('checks')
             W.count('spy_events', len(spies.LOG))
             W.count('verdict.' + verdict)
-            bad = [e for e in spies.LOG if e[1] not in spies.READONLY_EVENTS]
+            for e in spies.LOG:
+                W.add('spy_event_kinds', e[1])
+            bad = [e for e in spies.LOG if e[1] not in ALLOWED_EVENTS]
             if bad:
-                W.violation('non-readonly-call:' + bad[0][1],
+                W.violation('non-readonly-call:' + bad[0][1] + (':' + str(bad[0][0]) if bad[0][1] == 'truth-test' else ''),
                             f'{ep} ({verdict}) made a non-read-only call on its subject: {bad[:4]} hint={src} obj={short(x, 200)}',
                             stream, idx, dict(hint=src, obj=short(x, 400), conf=cs.kw, draw=r, entry_point=ep,
                                               events=[list(map(str, b)) for b in bad[:8]], scenario=what))
@@ -290,6 +296,23 @@ def main():
                             dict(hint=src, obj=short(x, 400), conf=cs.kw, draw=r, entry_point=ep, scenario=what))
                 return False
         return True
+
+    # ---- (1a) mappings whose *lookup* has a side effect (lead worker) -------------------------------------------
+    # ChainMap.__getitem__ asks each of its maps in turn with map[key]; a defaultdict never says KeyError, it inserts.
+    # A check that fetches "the value of the first key" through the subject's own __getitem__ changes the subject.
+    if W.is_lead():
+        import typing as _t0
+        lookups = [('ChainMap[str, int]', collections.ChainMap[str, int]), ('Mapping[str, int]', _t0.Mapping[str, int]),
+                   ('MutableMapping[str, int]', _t0.MutableMapping[str, int]), ('Optional[ChainMap[str, int]]', _t0.Optional[collections.ChainMap[str, int]])]
+        for i in (W.cases('lookup', len(lookups)) if W.replay_case else range(len(lookups))):
+            src, hint = lookups[i]
+            for tail in ({'a': 1}, {'a': 'not an int'}):
+                inner = collections.defaultdict(int)
+                x = collections.ChainMap(inner, dict(tail))
+                run_all('lookup', i, src, hint, x, engine.ConfSpec(), 0, 'chainmap-over-defaultdict',
+                        lambda ep, verdict, _i=inner: (('contents-changed:chainmap-over-defaultdict',
+                                                        f'the defaultdict inside the ChainMap gained {dict(_i)}') if len(_i) else None))
+            W.count('lookup_side_effect_cases')
 
     # ---- (1b) objects sent into decorated generators reach the body unchanged (lead worker) ----------------
     if W.is_lead():
